@@ -1270,11 +1270,65 @@ func returnOutcomes(fn *ssa.Function) []retOutcome {
 				}
 				vals := append([]ssa.Value{}, results...)
 				vals[errIdx] = e
-				out = append(out, retOutcome{Ret: ret, Pred: pred, Sentinels: sentinelsOf(e), Conds: condStrings(ctrlCondsEdge(pred, si)), Vals: vals, ErrTerm: term(e), NonNil: alwaysNonNil(e)})
+				out = append(out, spliceHelperOutcomes(retOutcome{Ret: ret, Pred: pred, Sentinels: sentinelsOf(e), Conds: condStrings(ctrlCondsEdge(pred, si)), Vals: vals, ErrTerm: term(e), NonNil: alwaysNonNil(e)}, e)...)
 			}
 			continue
 		}
-		out = append(out, retOutcome{Ret: ret, Sentinels: sentinelsOf(ev), Conds: condStrings(ctrlConds(b)), Vals: results, ErrTerm: term(ev), NonNil: alwaysNonNil(ev)})
+		out = append(out, spliceHelperOutcomes(retOutcome{Ret: ret, Sentinels: sentinelsOf(ev), Conds: condStrings(ctrlConds(b)), Vals: results, ErrTerm: term(ev), NonNil: alwaysNonNil(ev)}, ev)...)
+	}
+	return out
+}
+
+// spliceHelperOutcomes: when the returned error is the error result of a helper that did not exist on the reference tree,
+// the caller's outcome is replaced by the helper's error outcomes (sentinels, conditions with the arguments substituted),
+// each under the caller's own conditions.
+func spliceHelperOutcomes(o retOutcome, ev ssa.Value) []retOutcome {
+	if liftDepth >= maxLiftDepth {
+		return []retOutcome{o}
+	}
+	var call *ssa.Call
+	switch x := strip(ev).(type) {
+	case *ssa.Call:
+		call = x
+	case *ssa.Extract:
+		call, _ = x.Tuple.(*ssa.Call)
+	}
+	if call == nil {
+		return []retOutcome{o}
+	}
+	callee := transparentCallee(call)
+	if callee == nil || callee == o.Ret.Parent() {
+		return []retOutcome{o}
+	}
+	name := short(fnName(callee)) + "("
+	var keep []string
+	testsNonNil := false
+	for _, c := range o.Conds {
+		if strings.Contains(c, name) {
+			if strings.HasSuffix(c, " != nil") || strings.HasPrefix(c, "nil != ") {
+				testsNonNil = true
+			}
+			continue
+		}
+		keep = append(keep, c)
+	}
+	var out []retOutcome
+	withCallEnv(call, callee, func() {
+		for _, co := range returnOutcomes(callee) {
+			if testsNonNil && co.isPotentialSuccess() && !co.NonNil && hasStr(co.Sentinels, "nil") && len(co.Sentinels) == 1 {
+				continue // the caller returns the helper's error only where it is non-nil
+			}
+			n := o
+			n.Sentinels = co.Sentinels
+			n.ErrTerm = co.ErrTerm
+			n.NonNil = co.NonNil
+			n.Conds = append(append([]string{}, keep...), co.Conds...)
+			sort.Strings(n.Conds)
+			out = append(out, n)
+		}
+	})
+	if len(out) == 0 {
+		return []retOutcome{o}
 	}
 	return out
 }
